@@ -343,7 +343,12 @@ class G:
         target = ("index", ("var", xs), ("call", ("var", ix), []))
         e = ("opassign", op, target, self.expr("num", 1))
         out.append(("print", e) if self.chance(40) else ("expr", e))
-        out.append(("print", ("var", xs)))
+        if as_map:
+            # (a map prints in hash order, which for strings is an address: entries are read one by one)
+            out.append(("print", ("index", ("var", xs), ("str", "a"))))
+            out.append(("print", ("index", ("var", xs), ("str", "b"))))
+        else:
+            out.append(("print", ("var", xs)))
         out.append(("print", ("var", ct)))
         return out
 
@@ -2140,9 +2145,9 @@ class GColl(G):
             elif c < 5:
                 e = ("call", ("prop", e, "filter"), [self.callback("pred")])
             elif c < 7:
-                e = ("call", ("prop", e, "take"), [N_(self.i(0, 4))])
+                e = ("call", ("prop", e, "take"), [self.count_arg()])
             elif c < 8:
-                e = ("call", ("prop", e, "skip"), [N_(self.i(0, 4))])
+                e = ("call", ("prop", e, "skip"), [self.count_arg()])
             elif c < 9:
                 e = ("call", ("prop", e, "zip"), [self.source()])
             else:
@@ -2170,9 +2175,9 @@ class GColl(G):
         if c < 18:
             return [self.wrap(("call", ("prop", l, "pop"), []))]
         if c < 28:
-            return [self.wrap(("call", ("prop", l, "insert"), [self.idx_int(), self.elem()]))]
+            return [self.wrap(("call", ("prop", l, "insert"), [self.idx(), self.elem()]))]
         if c < 38:
-            return [self.wrap(("call", ("prop", l, "remove"), [self.idx_int()]))]
+            return [self.wrap(("call", ("prop", l, "remove"), [self.idx()]))]
         if c < 48:
             return [self.wrap(("index", l, self.idx()))]
         if c < 56:
@@ -2216,6 +2221,17 @@ class GColl(G):
             return [self.wrap(("call", ("prop", l, self.pick(["push", "insert", "remove", "slice"])), [self.pick([("str", "x"), ("nil",), ("list", [])])]))]
         return [self.wrap(self.chain())]
 
+    def count_arg(self):
+        """Argument of take / skip: mostly a small count, sometimes negative, fractional or not finite."""
+        if self.chance(85):
+            return N_(self.i(0, 4))
+        v = self.pick([-1, -5, 0.5, 2.5, "nan", "inf"])
+        if v == "nan":
+            return ("bin", "/", N_(0), N_(0))
+        if v == "inf":
+            return ("bin", "/", N_(1), N_(0))
+        return ("un", "-", N_(-v)) if v < 0 else N_(v)
+
     def idx_int(self):
         v = self.pick([i for i in IDX if i == int(i)])
         return ("un", "-", N_(-v)) if v < 0 else N_(v)
@@ -2240,8 +2256,28 @@ class GColl(G):
             return [self.wrap(("call", ("prop", m, "has"), [self.map_key()]))]
         if c < 84:
             return [self.wrap(("call", ("prop", m, "remove"), [self.map_key()]))]
-        if c < 90:
+        if c < 88:
             return [self.wrap(("call", ("prop", m, "len"), []))]
+        if c < 92:
+            # the map is changed while a for loop runs over it: the loop visits the entries present when it began
+            # (observed through counts only: the visiting order is the hash order); enough insertions make the map's
+            # table move
+            cnt, jv = self.fresh("cnt"), self.fresh("j")
+            body = [("expr", ("assign", ("var", cnt), ("bin", "+", ("var", cnt), N_(1))))]
+            form = self.i(0, 2)
+            if form == 0:
+                body.append(("for", jv, ("call", ("prop", N_(self.pick([1, 3, 8, 40])), "times"), []),
+                             [("expr", ("assign", ("index", m, ("interp", ["n", ("var", cnt), "_", ("var", jv)])), N_(1)))]))
+            elif form == 1:
+                body.append(("expr", ("call", ("prop", m, "remove"), [("index", ("var", "kv"), N_(0))])))
+            else:
+                body.append(("expr", ("assign", ("index", m, ("index", ("var", "kv"), N_(0))), N_(7))))
+            return [("let", cnt, N_(0)), self.wrap_stmt(("for", "kv", m, body)), ("print", ("var", cnt)),
+                    ("print", ("call", ("prop", m, "len"), []))]
+        if c < 96:
+            # a literal with drawn keys: with a key written twice the later entry is the one that stays
+            pairs = [(self.map_key(), self.elem()) for _ in range(self.i(1, 4))]
+            return [("expr", ("assign", m, ("map", pairs)))] + self.map_probe()
         # order insensitive fold over the entries
         return [self.wrap(("call", ("prop", ("call", ("prop", ("call", ("prop", m, "iter"), []), "map"), [L_("k", ["kv"], ("index", ("var", "kv"), N_(1)))]), "len"), []))]
 
